@@ -58,7 +58,7 @@ REL_TRANSFER = 1e-6            # C02's tolerance for the transfer relation (rela
 INTEGRATORS = ["rk1", "rk2", "rk3", "rk6", "cv2s100", "cv5s100", "cv2s1000", "cv5s1000", "cv5s10", "cv5s20", "rk3d4", "rk1d25", "rk2d4", "rk6d25", "rk3d0.01"]   # rkNdM = -runge_kutta N with -step_divide M
 REF_INTEG = "rk6"
 REF_BSM = 500
-BATCH_DIVS = ["1", "2", "7", "L"]
+BATCH_DIVS = ["1", "2", "7", "L", "2T"]
 SHIFT_DIVS = ["1", "2", "7"]
 LIST_CUM = [0.1, 0.3, 0.6, 1.0]
 LIST_INC = [0.1, 0.2, 0.3, 0.4]
@@ -163,9 +163,17 @@ NO_BATCH = "USE solution none\n"
 TRN_FLOW = {"trn": "forward", "trnb": "back", "trnd": "diffusion_only"}      # TRANSPORT contexts (2 cells, kinetics in both)
 
 
+EXTRA_STEPS = 2       # divisions "<n>T": a REACTION_TEMPERATURE (constant 25 C) with n + 2 steps next to "T in n steps"
+
+
 def expected_times(ctx, div, total):
     if div == "L":
         return [f * total for f in LIST_CUM]
+    if div.endswith("T"):
+        # the batch reaction runs max(steps of all keywords) steps; the manual: the kinetic time of "T in n steps" is used up
+        # after n steps, further steps add no time (incremental) / integrate over T again (cumulative): the state at T
+        n = int(div[:-1])
+        return [total * i / n for i in range(1, n + 1)] + [total] * EXTRA_STEPS
     n = int(div)
     return [total * i / n for i in range(1, n + 1)]
 
@@ -174,7 +182,7 @@ def steps_text(div, incr, total):
     if div == "L":
         fr = LIST_INC if incr else LIST_CUM
         return " ".join(_g(f * total) for f in fr)
-    n = int(div)
+    n = int(div[:-1]) if div.endswith("T") else int(div)
     return _g(total) if n == 1 else "%s in %d steps" % (_g(total), n)
 
 
@@ -203,7 +211,8 @@ def build_input(case, div, incr, integ, bsm):
     head = "PRINT\n -reset false\nINCREMENTAL_REACTIONS %s\n" % ("true" if incr else "false")
     itxt = integ_text(integ, bsm)
     if ctx == "batch":
-        return (head + rates + sol_block + "KINETICS 1\n" + kin + " -steps %s\n" % steps_text(div, incr, total) + itxt + up + "END\n"), names
+        more = "REACTION_TEMPERATURE 1\n 25 25 in %d steps\n" % (int(div[:-1]) + EXTRA_STEPS) if div.endswith("T") else ""
+        return (head + rates + sol_block + "KINETICS 1\n" + kin + " -steps %s\n" % steps_text(div, incr, total) + itxt + more + up + "END\n"), names
     n = int(div)
     dt = _g(total / n)
     if ctx == "adv":
@@ -488,20 +497,20 @@ def cases(tier):
     if tier == "quick":
         bounds.append(("DIAGNOSTIC ONLY (not judged) explicit-time law: kT 0.01 x tol 1e-6 x {rk1, rk3, cvode 5}",
                        lattice(["tdep"], ["batch"], ["rk1", "rk3", "cv5s100"], [500], [1.0], [0.01], [1e-6])))
-        bounds.append(("closed forms, batch: 5 families x kT {0.01,1,10} x tol {1e-6,1e-8,1e-10} x 9 integrators (rk 1/2/3/6, cvode order 5 and 2, rk3 and rk1 with -step_divide 4 / 25 / 0.01; m0 1, bad_step_max 500) x 4 divisions x 2 incremental",
+        bounds.append(("closed forms, batch: 5 families x kT {0.01,1,10} x tol {1e-6,1e-8,1e-10} x 9 integrators (rk 1/2/3/6, cvode order 5 and 2, rk3 and rk1 with -step_divide 4 / 25 / 0.01; m0 1, bad_step_max 500) x 5 divisions (incl. one with a REACTION_TEMPERATURE that asks for 2 more steps than KINETICS) x 2 incremental",
                        lattice(AUTONOMOUS, ["batch"], QUICK_INTEGRATORS, [500], [1.0])))
         bounds.append(("closed forms inside ADVECTION and TRANSPORT (forward, backward, diffusion only) time steps: {zero, first} x 3 kT x 3 tol x {rk3, rk6, cvode 5} x shift counts {1,2,7} x 2 incremental",
                        lattice(["zero", "first"], ["adv", "trn", "trnb", "trnd"], ["rk3", "rk6", "cv5s100"], [500], [1.0])))
-        bounds.append(("shipped rates Calcite, Pyrite: tol 1e-8 x 9 integrators x 4 divisions x 2 incremental (invariances only)",
+        bounds.append(("shipped rates Calcite, Pyrite: tol 1e-8 x 9 integrators x 5 divisions (incl. one with a REACTION_TEMPERATURE that asks for 2 more steps than KINETICS) x 2 incremental (invariances only)",
                        shipped(["Calcite", "Pyrite"], QUICK_INTEGRATORS, [1e-8])))
     else:
         bounds.append(("DIAGNOSTIC ONLY (not judged) explicit-time law: kT {0.01,1} x tol {1e-6,1e-8} x {rk1, rk2, rk3, rk6, cvode 5}",
                        lattice(["tdep"], ["batch"], ["rk1", "rk2", "rk3", "rk6", "cv5s100"], [500], [1.0], [0.01, 1.0], [1e-6, 1e-8])))
-        bounds.append(("closed forms, batch: 5 families x 3 kT x 3 tol x 13 integrators (+ cvode_steps 1000) x bad_step_max {500,10} x m0 {1, 0.001} x 4 divisions x 2 incremental",
+        bounds.append(("closed forms, batch: 5 families x 3 kT x 3 tol x 13 integrators (+ cvode_steps 1000) x bad_step_max {500,10} x m0 {1, 0.001} x 5 divisions (incl. one with a REACTION_TEMPERATURE that asks for 2 more steps than KINETICS) x 2 incremental",
                        lattice(AUTONOMOUS, ["batch"], INTEGRATORS, [500, 10], [1.0, 1e-3])))
         bounds.append(("closed forms inside ADVECTION and TRANSPORT (forward, backward, diffusion only) time steps: {zero, first, two, chain} x 3 kT x 3 tol x 13 integrators x shift counts {1,2,7} x 2 incremental",
                        lattice(["zero", "first", "two", "chain"], ["adv", "trn", "trnb", "trnd"], INTEGRATORS, [500], [1.0])))
-        bounds.append(("shipped rates Calcite, Pyrite, Organic_C, K-feldspar: 3 tol x 13 integrators x 4 divisions x 2 incremental (invariances only)",
+        bounds.append(("shipped rates Calcite, Pyrite, Organic_C, K-feldspar: 3 tol x 13 integrators x 5 divisions (incl. one with a REACTION_TEMPERATURE that asks for 2 more steps than KINETICS) x 2 incremental (invariances only)",
                        shipped(["Calcite", "Pyrite", "Organic_C", "K-feldspar"], INTEGRATORS, [1e-6, 1e-8, 1e-10])))
     return bounds
 
